@@ -117,7 +117,7 @@ def register(reg):
         ],
         frame=["session", "*.main_region", "*.handle", "*.cache_id", "*.name", "*.active_group", "packet.data",
                "*.finalized", "*.queued", "*.dropped", "*.packet_id", "*.synthetic", "*.acks", "*.send_flags",
-               "*.direction", "*.sender", "*.injections", "*._injection_base", "*._packet_id_base"]))
+               "*.direction", "*.sender", "*.injections", "*._injection_base", "*._packet_id_base", "*.unacked_reliable"]))
 
     reg.add_class(ClassDecl("AddonManagerCls", fields={"_SUBPROCESS": "Bool", "_SWALLOW_ADDON_EXCEPTIONS": "Bool",
                                                        "SCHEDULER": "Opaque:Any"}))
